@@ -294,7 +294,9 @@ func c01GenFn(s Src) c01FnCase {
 	if directed {
 		if ts := c01KindTerms(spec.Recv); ts != nil {
 			c.Recv = pickOne(s, ts)
-			if spec.Recv[0] == '\'' && s.Prob(40) {
+			// strings are the universal input of the conversion functions, whatever kind the
+			// specification's example has
+			if (spec.Recv[0] == '\'' && s.Prob(40)) || s.Prob(20) {
 				c.Recv = quoteFP(genComposedString(s))
 			}
 		}
@@ -750,7 +752,7 @@ func c01RunRes(ctx *Ctx, c c01ResCase) {
 
 func TestC01(t *testing.T) {
 	r := newRec("C01",
-		"five generators: (resource-paths) operators, type tests and functions applied to pairs of element paths of a generated resource of any R4 type; (programs) typed-ish random expression trees over every operator and table function with boundary leaves, compiled under a random option set and evaluated on the fixture Patient / nil / empty / generated resources / a hostile Patient (undeclared enum numbers, temporal elements without precision, empty choice wrappers and references), results pushed through EvaluateAs* and Collection.To*; (fn-matrix) every table function × arity in [Min-1, Max+1] × boundary receiver × boundary arguments; (mutants) byte-mutated sources (1..8 edits incl. hostile tokens) of generated programs and of the repository's own test expressions; (patch) add/insert/delete/replace/move × tree paths and odd paths × right/sibling/wrong/nil values × boundary indexes × nil resource.  non-trivial = the source compiled and contains an operator or invocation (programs, fn-matrix), the mutant is non-blank (mutants), the resource is non-nil (patch); distinct = FNV-64 of (source/arguments, option set)",
+		"generated resources handed in beside the fixture include (25%) contained slots, half of them filled with an Any that holds something else than a ContainedResource (a bare resource, a datatype, a non-FHIR message, an unknown type, an undecodable payload, nothing); string receivers and arguments of the function matrix include strings composed of value-shaped fragments ('5days', '1\\t mg', '08', '0x1F' …).  five generators: (resource-paths) operators, type tests and functions applied to pairs of element paths of a generated resource of any R4 type; (programs) typed-ish random expression trees over every operator and table function with boundary leaves, compiled under a random option set and evaluated on the fixture Patient / nil / empty / generated resources / a hostile Patient (undeclared enum numbers, temporal elements without precision, empty choice wrappers and references), results pushed through EvaluateAs* and Collection.To*; (fn-matrix) every table function × arity in [Min-1, Max+1] × boundary receiver × boundary arguments; (mutants) byte-mutated sources (1..8 edits incl. hostile tokens) of generated programs and of the repository's own test expressions; (patch) add/insert/delete/replace/move × tree paths and odd paths × right/sibling/wrong/nil values × boundary indexes × nil resource.  non-trivial = the source compiled and contains an operator or invocation (programs, fn-matrix), the mutant is non-blank (mutants), the resource is non-nil (patch); distinct = FNV-64 of (source/arguments, option set)",
 		"nil entries inside the input slice, nil option values and typed-nil elements are outside the domain", "a hang is a case still running after 30 s (observed cases take < 5 ms)")
 	runProperty(t, r,
 		Stage[c01FnCase]{Name: "fn-matrix", Gen: c01GenFn, Run: c01RunFn, N: pick(12000, 250000)},
